@@ -554,11 +554,15 @@ func run(c Case) (o hx.Outcome) {
 		output = w.String()
 		reported, _ := reportedInvalid(output)
 		nReported = len(reported)
-		// Only a run that was cancelled and says so is excused from being complete.
-		vd = judgeVerify(v, before, after, reported, c.Repair, opErr == nil || !c.Cancel)
+		ended := vComplete
 		if opErr != nil {
 			o.Class("verify:error")
+			ended = vAborted
+			if c.Cancel { // only a run that was cancelled and says so is excused from being complete
+				ended = vExcused
+			}
 		}
+		vd = judgeVerify(v, before, after, reported, c.Repair, ended)
 	}
 
 	// ---- evidence
@@ -823,10 +827,10 @@ func TestSelf(t *testing.T) {
 		}
 		return m
 	}
-	if s := judgeVerify(v, before, before, rep(h2), false, true).sigs(); len(s) != 0 {
+	if s := judgeVerify(v, before, before, rep(h2), false, vComplete).sigs(); len(s) != 0 {
 		fail("verify: expected outcome flagged: %v", s)
 	}
-	if s := judgeVerify(v, before, repaired, rep(h2), true, true).sigs(); len(s) != 0 {
+	if s := judgeVerify(v, before, repaired, rep(h2), true, vComplete).sigs(); len(s) != 0 {
 		fail("verify: expected repair outcome flagged: %v", s)
 	}
 	for _, ck := range []struct {
@@ -844,7 +848,7 @@ func TestSelf(t *testing.T) {
 		{snap{good: string(data), other: "zzz"}, rep(h2), true, "removed-non-chunk"},
 		{before, rep(h2, hashID([]byte("nowhere"))), false, "reported-not-in-store"},
 	} {
-		s := judgeVerify(v, before, ck.after, ck.reported, ck.repair, true).sigs()
+		s := judgeVerify(v, before, ck.after, ck.reported, ck.repair, vComplete).sigs()
 		found := false
 		for _, x := range s {
 			found = found || x == "C16:local:verify:"+ck.want
@@ -852,6 +856,12 @@ func TestSelf(t *testing.T) {
 		if !found {
 			fail("verify: synthetic outcome for %s not flagged (got %v)", ck.want, s)
 		}
+	}
+	if s := judgeVerify(v, before, before, rep(), true, vExcused).sigs(); len(s) != 0 {
+		fail("verify: interrupted run flagged: %v", s)
+	}
+	if s := judgeVerify(v, before, before, rep(), true, vAborted).sigs(); len(s) != 1 || s[0] != "C16:local:verify:aborted-incomplete" {
+		fail("verify: aborted incomplete run: got %v", s)
 	}
 	ids, others := reportedInvalid("chunk id " + h + " does not match its hash " + h2 + ": removed\nsomething else\nchunk id " + h2 + " does not match its hash " + h + "\n")
 	if len(ids) != 2 || !ids[h] || !ids[h2] || len(others) != 1 {
